@@ -26,8 +26,8 @@ ASSUMPTIONS = [
     'SetInstance.select/filter/order_by/... build a new query in the current session with the object as a parameter: outside the statement',
     'only SQLite is executed; the guards are backend independent code',
 ]
-RULE = ('exhaustive product: 39 operations x 11 object statuses at session end (loaded / collections loaded / partially loaded / created / '
-        'created without any database access / inserted / modified / updated / marked_to_delete / deleted / cancelled) x 4 endings (commit, '
+RULE = ('exhaustive product: 39 operations x 12 object statuses at session end (loaded / collections loaded / partially loaded / created / '
+        'created without any database access / inserted / modified / modified with an in-place Json change / updated / marked_to_delete / deleted / cancelled) x 4 endings (commit, '
         'rollback, exception in the body, failing commit) x strict x {outside any session, inside a new session}; non-trivial = the scenario '
         'could be built and the object was reached (all are); distinct = distinct (op, status, ending, strict, ctx)')
 EXPLANATION = None
@@ -316,7 +316,7 @@ LEVEL_TEXT = ('Machine-checked proof (Coq 8.16.1) over a guard table regenerated
               'proper (incl. SetInstance.create) are shown to start with the guard unconditionally, and is_empty / create / flush (repaired by 743d82e) '
               'are covered on every path. SessionCache.close is hand-modelled and proved to keep loaded scalars and fully loaded '
               'collections readable when not strict, to refuse everything else, and to refuse everything after a strict session. Tied to the '
-              'implementation by an exhaustive product of 39 operations x 11 statuses x 4 endings x strict x 2 contexts on SQLite.')
+              'implementation by an exhaustive product of 39 operations x 12 statuses x 4 endings x strict x 2 contexts on SQLite.')
 LEVEL_NOTE = ('The proof is about prefix paths extracted by an ast scanner (trusted, fail-closed, cross-checked against every observed outcome); what '
               'operations do after a passed guard is outside the model. Only SQLite executes. Query-building methods of SetInstance are out of scope.')
 TECHNIQUE = 'ast scanner -> finite guard table -> Coq (path semantics, forallb_forall lifting); hand model of close; exhaustive product on SQLite'
